@@ -198,8 +198,13 @@ def replay_msg(ctx, c, h):
 def replay_perm(ctx, c, msg, shown, accepted, fields, unk, enc, res):
     """permissive mode: premise = the message without its unknown-tag tokens conforms; then it must be accepted, the known fields must be
     those tokens, and the re-encoding must contain every unknown token's bytes exactly once"""
-    T = tables(); known = set(r[0] for k in ('hdr', 'body', 'trl') for r in T[k])
-    toks = tokenize(msg); ut = [(t, v) for t, v in toks[3:-1] if t not in known]
+    T = tables(); known = set(r[0] for k in ('hdr', 'body', 'trl') for r in T[k]); gtags = set(r[0] for r in T['grp'])
+    toks = tokenize(msg); ut = []; ing = False
+    for t, v in toks[3:-1]:                 # as in the harness acceptor: group-element tags are known while the group is open; any other token closes it
+        if ing and t in gtags: continue
+        ing = False
+        if t not in known: ut.append((t, v))
+        elif t == 384 and v.isdigit() and int(v) > 0: ing = True
     kmsg = b''.join(b'%d=%s\x01' % (t, v) for t, v in toks if (t, v) not in ut)
     conform, exp = reference(kmsg, 1)
     cs_ok = int(toks[-1][1]) == sum(msg[:-7]) & 255 if toks[-1][1].isdigit() else False
@@ -208,6 +213,7 @@ def replay_perm(ctx, c, msg, shown, accepted, fields, unk, enc, res):
         if int(c.get('cx_nochk', 0)) or cs_ok: return True, 'permissive mode rejects a message whose only deviation is unknown tags: %r -> %s' % (shown, res)
         return False, 'rejected for its checksum: %r' % shown
     got = sorted((cmp_, t) for cmp_, t, v in fields if t not in (8, 9, 35, 10)); want = sorted((cmp_, t) for cmp_, t, v in exp)
+    if got != want: c['native_class'] = 'known-fields-differ'      # read by the known-finding classifiers: not the pass-through duplication class
     if got != want: return True, 'permissive mode loses or invents known fields: %r -> decoded %s' % (shown, got)
     bad = [(t, v, enc.count(b'%d=%s\x01' % (t, v))) for t, v in ut if enc is None or enc.count(b'%d=%s\x01' % (t, v)) != 1]
     extra = enc is not None and len(enc) - len(msg) - (len(b'%d' % (len(enc) - 20 - 7)) - 2) if enc else 0
@@ -352,7 +358,7 @@ def tabcheck(ctx):
 
 def us_decode(ntok, harness_loops=('main', 'run'), extra=(), maxcopy=None):
     """per-loop unwinding bounds of the decoder world (names from cbmc --show-loops); global --unwind covers the small harness loops"""
-    us = ['%s.%d:%d' % (f, i, 170) for f in harness_loops for i in range(0, 14)]
+    us = ['%s.%d:%d' % (f, i, 170) for f in harness_loops for i in range(0, 24)]
     us += ['_ZNK4FIX811FieldTraits12find_missingENS_10FieldTrait10TraitTypesE.0:29', 'in_tab.0:29', 'vf_ti_match.0:60', 'vf_copy.0:%d' % ((maxcopy or FLD) + 2), 'x_strlen.0:64',
            M_DECODE + '.0:3', M_DECODE + '.1:%d' % (ntok + 2), M_DECODE + '.2:%d' % (ntok + 2),
            SYMS['fw'] + '.0:%d' % FLD, SYMS['ext'] + '.0:%d' % (FLD + 1),
@@ -362,20 +368,21 @@ def us_decode(ntok, harness_loops=('main', 'run'), extra=(), maxcopy=None):
     over = set(e.rsplit(':', 1)[0] for e in extra)          # an explicit bound replaces the default for that loop
     return [u for u in us if u.rsplit(':', 1)[0] not in over] + list(extra)
 
-def tok_harness(ctx, name, *, perm=0, nx=3, pres=0, drop=0, ng=0, gpres=0, defs=(), tokcut=True, tier='quick', extra_defs=(), timeout=900, cfile='C04_tok.c', pid='C04', object_bits=None):
+def tok_harness(ctx, name, *, perm=0, nx=3, pres=0, drop=0, ng=0, gpres=0, glast=False, defs=(), tokcut=True, tier='quick', extra_defs=(), timeout=900, cfile='C04_tok.c', pid='C04', object_bits=None):
     """one query of the token-level driver (harness/C04_tok.c)"""
     world(ctx)
     nslots = bin(pres).count('1') + bin(gpres).count('1')
     ntok = 3 + 6 + nx + ng + 1
     mc = next((int(x.split('=')[1]) for x in extra_defs if x.startswith('VF_MAXCOPY=')), FLD)
     d = list(defs) + WORLD_DEFS + ['NX=%d' % nx, 'PRES=%d' % pres, 'DROP=%d' % drop, 'PERM=%d' % perm] + ([] if mc != FLD else ['VF_MAXCOPY=%d' % FLD]) + list(extra_defs)
-    if ng: d += ['NG=%d' % ng, 'GPRES=%d' % gpres]
+    if ng: d += ['NG=%d' % ng, 'GPRES=%d' % gpres] + (['GLAST'] if glast else [])
     else: d += ['NOGROUP']
     if not tokcut: d += ['NO_TOKCUT']
     slots = []
     for i in range(nx):
         if i == 1 and ng: slots.append('384=n ' + ' '.join('G%d' % g if (gpres >> g) & 1 else '-' for g in range(ng)))
         else: slots.append('X%d' % i if (pres >> i) & 1 else '-')
+    if glast and ng: slots.insert(2, slots[1]); slots[1] = '-'          # the group follows 108 (last field of the body)
     bounds = ('message 8=FIX.4.2|9=12|35=A| %s 49 56 34 52 %s 98 108 %s 10=ddd|%s; %d symbolic 9-byte token(s): tag from a menu of 11 (header/body/trailer tags, foreign tag, '
               'tag outside the field table, two tags == known tag mod 65536, repeat of 35%s), 2..6 symbolic value bytes (no SOH/NUL); checksum digits, byte sum and no_chksum flag symbolic; '
               'FIX8_MAX_FLD_LENGTH scaled to %d') % (slots[0], slots[1], ' '.join(slots[2:]), ' with mandatory token #%d left out' % drop if drop else (' with one of the six mandatory tokens left out (each in turn)' if 'DROPALL' in extra_defs else ''), nslots,
